@@ -130,3 +130,49 @@ func VH_C01_gen(vm *VM, inst int) {
 	note("case", "gen-disj arity "+string(rune('0'+inst)))
 	vRunTerms(vm, "gen-disj", clauses, q, vars, 8, 400, "", false)
 }
+
+// ---- generated family 2: every program of 1..3 clauses for p/1 drawn from a clause menu ----
+
+var c01Menu = []string{
+	"p(k0).",
+	"p(k1).",
+	"p(X) :- q(X).",
+	"p(X) :- q(X), r(X).",
+	"p(X) :- r(X) ; q(X).",
+	"p(f(X)) :- q(X).",
+	"p(X) :- \\+ q(X), r(X).",
+	"p(X) :- q(Y), X = g(Y).",
+}
+
+// with cuts (C03)
+var c03Menu = []string{
+	"p(k0).",
+	"p(X) :- q(X).",
+	"p(X) :- q(X), !.",
+	"p(X) :- !, r(X).",
+	"p(X) :- q(X), !, r(X).",
+	"p(X) :- r(X), \\+ q(X), !.",
+	"p(X) :- ( q(X), ! ; r(X) ).",
+	"p(X) :- ( q(X) -> r(X) ; X = k2 ).",
+	"p(X) :- call((q(X), !)).",
+	"p(X) :- q(X), r(X), !.",
+}
+
+var c01Queries = []string{"p(X).", "p(k0).", "o(A), p(X).", "p(X), p(Y), X == Y.", "p(f(Z)).", "\\+ p(k2).", "findall(X, p(X), L)."}
+
+// VH_gen2: inst = query index * 3 + (number of clauses - 1); each clause by case split over the menu.
+func VH_gen2(vm *VM, inst int, cuts bool) {
+	menu := c01Menu
+	if cuts {
+		menu = c03Menu
+	}
+	n := 1 + inst%3
+	q := c01Queries[(inst/3)%len(c01Queries)]
+	prog := "q(k0). q(k1). r(k1). r(k2). o(k0). o(k1). "
+	for i := 0; i < n; i++ {
+		prog += menu[choice("clause", len(menu))] + " "
+	}
+	c := vCase{name: "gen2", prog: prog, query: q}
+	vRunCase(vm, c, "", false)
+	reach("gen2", true)
+}
